@@ -84,7 +84,10 @@ class C08(Engine):
                                                               status=[re_.get("status"), rc.get("status")]),
                                                   expected="(StyleEq!ResultEquiv is false, Trace_StyleEq.tla)", flow="B"))
         for k in range(0, len(events), self.chunk):
-            ctx.validate(self.trace[0], self.trace[1], events[k:k + self.chunk], on_reject=on_reject, tag=f"{tag}{k}")
+            if len(ctx.violations) >= 6:       # the verdict is settled; do not spend minutes on re-validation
+                ctx.notes.append(f"validation of the remaining events ({tag}) skipped after {len(ctx.violations)} violations")
+                return
+            ctx.validate(self.trace[0], self.trace[1], events[k:k + self.chunk], on_reject=on_reject, tag=f"{tag}{k}", max_rejects=6)
 
     def run(self, ctx):
         from . import styleeq_vocab
